@@ -63,7 +63,7 @@ From OmegaGen Require BitsGen.
 From OmegaGP Require Import CounterWidth.
 From Omega Require Import L4.Plays.
 From OmegaGP Require Import TransducerModel TransducerBridge StreettTProofs StreettNB2 StreettNB4 StreettIter2
-  StreettClosure1 StreettClosure2 StreettLive4 StreettWins.
+  StreettClosure1 StreettClosure2 StreettLive4 StreettWins MooreIndepSolver.
 
 Theorem C02_construction_is_translated :
   forall nc nx ny G (E S EI SI : bdd) (holds goals : list bdd) (moore plus_one : bool)
@@ -217,13 +217,36 @@ Proof.
 Qed.
 
 (* (h) IN GAME TERMS (theories/L4/Plays.v): the synthesized implementation,
-   read as a strategy - at every step the component takes the first step the
-   translated construction's action allows, with the goal counter as memory -
-   wins from every state of the region: EVERY play consistent with it keeps
-   the component's action as the mode obliges and, if the environment keeps
-   its action forever, satisfies persistence or recurrence.  (a)-(g) combined
-   into the notion of winning of C01.  Depends on Classical_Prop.classic. *)
+   read as a strategy - [StreettWins.impl_strategy ...]: at every step the
+   component takes the first step the translated construction's action
+   allows, with the goal counter as memory (a function of the history) - is a
+   WINNING STRATEGY from every state of the region: it is a valid strategy of
+   the mode (values in range; Moore: independent of the next environment
+   value) and EVERY play from s consistent with IT keeps the component's
+   action as the mode obliges and, if the environment keeps its action
+   forever, satisfies persistence or recurrence.  (a)-(g) combined into the
+   notion of winning of C01.  The statement NAMES the strategy; the weaker
+   "some strategy wins" (which also follows from the exactness of the region,
+   C01) is the corollary C02_implementation_wins_the_game_exists.  Depends on
+   Classical_Prop.classic. *)
 Theorem C02_implementation_wins_the_game :
+  forall nc nx ny (E S : bdd) (holds goals : list bdd) (moore plus_one : bool) fuel G c s,
+  NV nc nx ny <= fuel -> Forall spred holds -> Forall spred goals ->
+  0 < G -> length goals <= G -> 0 < length goals -> c < nc ->
+  fst s < nx -> snd s < ny ->
+  fst (fst (Gr1Gen.solve_streett_game nc nx ny E S holds goals moore plus_one fuel))
+    (stv c s) = true ->
+  let f := StreettWins.impl_strategy nc nx ny E S holds goals moore plus_one fuel G c in
+  cvalid ny moore f /\
+  forall p, inrange nx ny p -> p 0 = s -> cconsistent f p ->
+            win_streett c E S holds goals plus_one p.
+Proof.
+  intros nc nx ny E S holds goals moore plus_one fuel G c s Hf Sh Sg HG HnG Hg Hc H1 H2 Hz f.
+  exact (implementation_is_winning_strategy nc nx ny E S holds goals moore plus_one fuel
+           Hf Sh Sg G HG HnG Hg c Hc s H1 H2 Hz).
+Qed.
+
+Theorem C02_implementation_wins_the_game_exists :
   forall nc nx ny (E S : bdd) (holds goals : list bdd) (moore plus_one : bool) fuel G c s,
   NV nc nx ny <= fuel -> Forall spred holds -> Forall spred goals ->
   0 < G -> length goals <= G -> 0 < length goals -> c < nc ->
@@ -252,6 +275,24 @@ Proof.
   all: repeat constructor; intros v; reflexivity.
 Qed.
 
+(* Moore independence for what the construction is really applied to: the
+   hypotheses of C02_moore_independent_of_next_env (iterates, goals and
+   persistence predicates independent of the next environment values) hold
+   for the output of the GENERATED solver on state predicates, lifted to the
+   arena with the goal counter - everything the solver records is a state
+   predicate (GenProofs/MooreIndepSolver.v) *)
+Theorem C02_moore_independent_of_next_env_solver :
+  forall nc nx ny (E S : bdd) (holds goals : list bdd) (plus_one : bool) fuel G,
+  NV nc nx ny <= fuel -> Forall spred holds -> Forall spred goals ->
+  let sol := Gr1Gen.solve_streett_game nc nx ny E S holds goals true plus_one fuel in
+  let L := lift nc nx ny G in
+  indep (streett_action nc nx ny G (L E) (L S) (map L holds) (map L goals) true plus_one
+           (L (fst (fst sol))) (map (map L) (snd (fst sol))) (map (map (map L)) (snd sol))).
+Proof.
+  intros nc nx ny E S holds goals plus_one fuel G Hf Sh Sg.
+  exact (streett_impl_moore_indep nc nx ny E S holds goals plus_one fuel Hf Sh Sg G).
+Qed.
+
 Print Assumptions C02_construction_is_translated.
 Print Assumptions C02_counter_field_fits.
 Print Assumptions C02_asserted_lengths_hold.
@@ -260,7 +301,9 @@ Print Assumptions C02_region_closed.
 Print Assumptions C02_reachable_states_winning.
 Print Assumptions C02_liveness.
 Print Assumptions C02_implementation_wins_the_game.
+Print Assumptions C02_implementation_wins_the_game_exists.
 Print Assumptions C02_refines_component_action.
 Print Assumptions C02_obligation_at_the_step.
 Print Assumptions C02_moore_independent_of_next_env.
+Print Assumptions C02_moore_independent_of_next_env_solver.
 Print Assumptions C02_counter_in_range.
